@@ -119,6 +119,73 @@ pub fn gen_prim_tok(rng: &mut Rng) -> String {
     }
 }
 
+/// C15 "iterating (forwards, backwards, ...)": every positional way of walking the iterator agrees
+/// with the reference order `want` (std's adapters call `nth`, `nth_back`, `last`, `count`, `len`
+/// whenever an iterator overrides them).
+fn kv_iter_laws<'a, I>(mk: impl Fn() -> I, want: &[(String, Val)], fails: &mut Vec<String>)
+where
+    I: DoubleEndedIterator<Item = (&'a str, &'a TracedValue)> + ExactSizeIterator,
+{
+    let conv = |x: (&str, &TracedValue)| (x.0.to_owned(), Val::from_real(x.1));
+    let n = want.len();
+    let mut bad = |what: String| {
+        if fails.len() < 20 {
+            fails.push(format!("C15 iterator over {n} entries: {what}"));
+        }
+    };
+    if mk().len() != n || mk().size_hint() != (n, Some(n)) || mk().count() != n {
+        bad(format!("len {} / size_hint {:?} / count {}", mk().len(), mk().size_hint(), mk().count()));
+    }
+    if mk().last().map(conv) != want.last().cloned() {
+        bad("last() is not the last entry".into());
+    }
+    for k in 0..=n {
+        let mut it = mk();
+        let got = it.nth(k).map(conv);
+        let rest: Vec<_> = it.map(conv).collect();
+        if got != want.get(k).cloned() || rest != want.get(k + 1..).unwrap_or(&[]) {
+            bad(format!("nth({k}) and what follows are wrong"));
+        }
+        let mut it = mk();
+        let got = it.nth_back(k).map(conv);
+        let left = it.len();
+        let rest: Vec<_> = it.map(conv).collect();
+        let (w, w_rest): (Option<(String, Val)>, &[(String, Val)]) = if k < n { (Some(want[n - 1 - k].clone()), &want[..n - 1 - k]) } else { (None, &[]) };
+        if got != w || rest != w_rest || left != w_rest.len() {
+            bad(format!("nth_back({k}) and what remains are wrong"));
+        }
+        let skipped: Vec<_> = mk().rev().skip(k).map(conv).collect();
+        let mut w_sk: Vec<_> = want[..n.saturating_sub(k)].to_vec();
+        w_sk.reverse();
+        if skipped != w_sk {
+            bad(format!("rev().skip({k}) is wrong"));
+        }
+        if mk().rev().nth(k).map(conv) != w {
+            bad(format!("rev().nth({k}) is wrong"));
+        }
+    }
+    // from both ends towards the middle: every entry once
+    let (mut it, mut front, mut back, mut turn) = (mk(), vec![], vec![], false);
+    loop {
+        let x = if turn { it.next_back() } else { it.next() };
+        match x {
+            Some(x) if turn => back.push(conv(x)),
+            Some(x) => front.push(conv(x)),
+            None => break,
+        }
+        if it.len() != n - front.len() - back.len() {
+            bad("len does not shrink by one per entry".into());
+            break;
+        }
+        turn = !turn;
+    }
+    back.reverse();
+    front.extend(back);
+    if front != want {
+        bad("walking from both ends does not yield every entry once".into());
+    }
+}
+
 fn opt_val(v: Option<&TracedValue>) -> String {
     v.map_or_else(|| "-".to_owned(), |v| Val::from_real(v).tok())
 }
@@ -332,6 +399,11 @@ impl Suite for Values {
                             if got.map(Val::from_real) != expect {
                                 out.fails.push(format!("C15 get({k:?}) = {:?}, reference map has {:?}", got, expect));
                             }
+                            // indexing is the same lookup (and panics exactly when the name is absent)
+                            let indexed = std::panic::catch_unwind(std::panic::AssertUnwindSafe(|| Val::from_real(&cur[k.as_str()]))).ok();
+                            if indexed != expect {
+                                out.fails.push(format!("C15 values[{k:?}] gives {indexed:?} (None = panic), reference map has {expect:?}"));
+                            }
                             out.obs.push(format!("ret {}", opt_val(got)));
                         }
                         "extend" | "collect" | "json" | "mapde" => {
@@ -391,6 +463,8 @@ impl Suite for Values {
                             if es != reference {
                                 out.fails.push(format!("C15 iteration {:?} differs from reference order {:?}", es, reference));
                             }
+                            kv_iter_laws(|| cur.iter(), &reference, &mut out.fails);
+                            kv_iter_laws(|| (&cur).into_iter(), &reference, &mut out.fails);
                             out.obs.push(format!("it {}", entries_tok(&es)));
                         }
                         "iterrev" => {
